@@ -40,6 +40,9 @@ type LiveIn struct {
 	GetFaults     []string `json:"getFaults"`     // outcome of the i-th NodePool Get: "" | "err" | "notfound" | "conflict"
 	PatchFaults   []string `json:"patchFaults"`   // outcome of the i-th NodePool status patch
 	DeleteFaults  []string `json:"deleteFaults"`  // outcome of the i-th NodeClaim Delete: "" | "err" | "notfound"
+	// frame: durations the NodeClaim carries that are no part of the liveness trigger (null = unset / Never)
+	ClaimTGP         *int64 `json:"claimTgp,omitempty"`         // spec.terminationGracePeriod, ns
+	ClaimExpireAfter *int64 `json:"claimExpireAfter,omitempty"` // spec.expireAfter, ns
 }
 
 type LiveOut struct {
@@ -108,6 +111,19 @@ func genLive(r *rand.Rand, _ core.Tier) any {
 	default:
 		in.Now = max(lEdge, rEdge) + r.Int64N(sec(3600))
 	}
+	// frame: 40% of the NodeClaims carry a terminationGracePeriod, 50% an expireAfter (also shorter than the
+	// timeouts); with a grace period g, 25% of the clocks are drawn inside [edge - g, edge) of one of the timeouts
+	if r.Float64() < 0.4 {
+		g := pick(r, []int64{0, sec(1), sec(30), sec(120), sec(600), sec(3600)})
+		in.ClaimTGP = &g
+		if g > 0 && r.Float64() < 0.25 {
+			in.Now = pick(r, []int64{lEdge, rEdge}) - g + r.Int64N(g)
+		}
+	}
+	if r.Float64() < 0.5 {
+		e := pick(r, []int64{0, sec(60), sec(299), sec(300), sec(600), sec(900), sec(3600), sec(720 * 3600)})
+		in.ClaimExpireAfter = &e
+	}
 	if in.Now < in.Created {
 		in.Now = in.Created
 	}
@@ -167,6 +183,12 @@ func implLive(raw json.RawMessage) (any, error) {
 	}
 	if !in.Managed {
 		nc.Spec.NodeClassRef = foreignNodeClassRef()
+	}
+	if in.ClaimTGP != nil {
+		nc.Spec.TerminationGracePeriod = &metav1.Duration{Duration: time.Duration(*in.ClaimTGP)}
+	}
+	if in.ClaimExpireAfter != nil {
+		nc.Spec.ExpireAfter = v1.NillableDuration{Duration: (*time.Duration)(in.ClaimExpireAfter)}
 	}
 	if in.Launched == "True" {
 		nc.Status.ProviderID = "fake://i-0"
@@ -288,6 +310,18 @@ func liveLabels(raw json.RawMessage, impl any) []string {
 	}
 	if in.Deleting {
 		l = append(l, "deleting")
+	}
+	if in.ClaimTGP != nil {
+		l = append(l, "claim:tgp-set")
+		for _, e := range []int64{in.LaunchedAt + int64(lifecycle.LaunchTimeout), in.RegisteredAt + int64(regTimeoutHint)} {
+			if e-*in.ClaimTGP <= in.Now && in.Now < e {
+				l = append(l, "clock:in-[tgp-window-before-a-timeout)")
+				break
+			}
+		}
+	}
+	if in.ClaimExpireAfter != nil {
+		l = append(l, "claim:expireAfter-set")
 	}
 	if m, ok := impl.(map[string]any); ok {
 		l = append(l, "deletes="+fmt.Sprint(m["deletes"]))
